@@ -7,10 +7,13 @@
   ifelse    : every  if c: A else: B  (with an else branch that is not an elif chain) written  if not c: B else: A
   range0    : every  range(n)  written  range(0, n)
   tempret   : every  return <expression>  (not a bare name / constant) written  _ret = <expression>; return _ret
-  chain     : every chained comparison  a < b < c  written  a < b and b < c"""
+  chain     : every chained comparison  a < b < c  written  a < b and b < c
+  commute   : every  a + b  and  a * b  and  a | b  whose operands are side-effect free written  b + a / b * a / b | a
+  nestand   : every  if a and b: S  (no else)  written  if a: if b: S
+  earlycont : a loop body that ends with  if c: S  (no else)  ends with  if not c: continue; S  instead"""
 import ast
 
-MODES = ["roundtrip", "rename", "params", "flipcmp", "augassign", "ifelse", "range0", "tempret", "chain"]
+MODES = ["roundtrip", "rename", "params", "flipcmp", "augassign", "ifelse", "range0", "tempret", "chain", "commute", "nestand", "earlycont"]
 
 class Renamer(ast.NodeTransformer):
     def __init__(self, mode): self.mode = mode
@@ -103,6 +106,41 @@ class Chain(ast.NodeTransformer):
             return ast.copy_location(ast.BoolOp(op=ast.And(), values=[ast.Compare(left=a, ops=[n.ops[0]], comparators=[b]), ast.Compare(left=b2, ops=[n.ops[1]], comparators=[c])]), n)
         return n
 
+def _pure(e):
+    return all(isinstance(x, (ast.Name, ast.Constant, ast.Subscript, ast.Attribute, ast.BinOp, ast.UnaryOp, ast.Tuple, ast.Slice, ast.Load, ast.operator, ast.unaryop))
+               for x in ast.walk(e))
+
+class Commute(ast.NodeTransformer):
+    def visit_BinOp(self, n):
+        self.generic_visit(n)
+        if isinstance(n.op, (ast.Add, ast.Mult, ast.BitOr)) and _pure(n.left) and _pure(n.right) \
+                and not any(isinstance(x, ast.Constant) and isinstance(x.value, str) for x in ast.walk(n)) \
+                and not any(isinstance(x, (ast.List, ast.Tuple)) for x in (n.left, n.right)):
+            return ast.copy_location(ast.BinOp(left=n.right, op=n.op, right=n.left), n)
+        return n
+    def visit_JoinedStr(self, n): return n
+
+class NestAnd(ast.NodeTransformer):
+    def visit_If(self, n):
+        self.generic_visit(n)
+        if not n.orelse and isinstance(n.test, ast.BoolOp) and isinstance(n.test.op, ast.And) and len(n.test.values) == 2 \
+                and not any(isinstance(x, ast.NamedExpr) for x in ast.walk(n.test)):
+            inner = ast.copy_location(ast.If(test=n.test.values[1], body=n.body, orelse=[]), n)
+            return ast.copy_location(ast.If(test=n.test.values[0], body=[inner], orelse=[]), n)
+        return n
+
+class EarlyCont(ast.NodeTransformer):
+    def _loop(self, n):
+        self.generic_visit(n)
+        if n.body and isinstance(n.body[-1], ast.If) and not n.body[-1].orelse and not n.orelse \
+                and not any(isinstance(x, ast.NamedExpr) for x in ast.walk(n.body[-1].test)):
+            last = n.body[-1]
+            guard = ast.copy_location(ast.If(test=ast.UnaryOp(op=ast.Not(), operand=last.test), body=[ast.copy_location(ast.Continue(), last)], orelse=[]), last)
+            n.body = n.body[:-1] + [guard] + last.body
+        return n
+    visit_For = _loop
+    visit_While = _loop
+
 def transform(src, mode):
     tree = ast.parse(src)
     if mode in ("rename", "params"):
@@ -119,6 +157,12 @@ def transform(src, mode):
         tree = TempRet().visit(tree)
     elif mode == "chain":
         tree = Chain().visit(tree)
+    elif mode == "commute":
+        tree = Commute().visit(tree)
+    elif mode == "nestand":
+        tree = NestAnd().visit(tree)
+    elif mode == "earlycont":
+        tree = EarlyCont().visit(tree)
     ast.fix_missing_locations(tree)
     return ast.unparse(tree) + "\n"
 
